@@ -74,9 +74,28 @@ Theorem lru_stats_exact : forall c t t0 h,
   snd (step s 0 Stats) = OStats (hits s) (misses s) (evictions s) (Z.of_nat (length (items s))) (cap s).
 Proof. exact (stats_exact K V keqb). Qed.
 
+(* a sweep never takes a live entry. A key that is absent in a reachable state is stored at t1; whether or not a sweep runs
+   afterwards (at t2), a lookup at t3 - inside the lifetime counted from t1 - returns the value. Together with the next
+   theorem (a lookup that misses leaves the key absent) this is the one-at-a-time explanation C11 asks of a sweep that runs
+   while expired keys are looked up and stored again: wherever the sweep falls, the re-stored entries are there afterwards. *)
+Theorem lru_sweep_spares_fresh_entry : forall c t t0 h t1 t2 t3 k v (sweep : bool), mono_from K V t0 h ->
+  let s := reach c t t0 h in
+  t1 <= t2 -> t2 <= t3 -> lookup K V keqb k (items s) = None -> (ttl s <= 0 \/ t3 - t1 <= ttl s) ->
+  let s1 := fst (step s t1 (Put k v)) in
+  let s2 := if sweep then fst (step s1 t2 Cleanup) else s1 in
+  snd (step s2 t3 (Get k)) = OGet (Some v).
+Proof. exact (fresh_survives_reachable K V keqb keqb_spec). Qed.
+
+Theorem lru_miss_leaves_key_absent : forall c t t0 h now k, mono_from K V t0 h ->
+  let s := reach c t t0 h in
+  snd (step s now (Get k)) = OGet None -> lookup K V keqb k (items (fst (step s now (Get k)))) = None.
+Proof. exact (miss_leaves_absent_reachable K V keqb keqb_spec). Qed.
+
 End C12.
 
 Print Assumptions lru_capacity.
+Print Assumptions lru_sweep_spares_fresh_entry.
+Print Assumptions lru_miss_leaves_key_absent.
 Print Assumptions lru_evicts_least_recent.
 Print Assumptions lru_ghosts_follow_history.
 Print Assumptions lru_get_latest.
@@ -93,4 +112,12 @@ Proof. simpl. repeat split; discriminate. Qed.
 Example ex_run :
   snd (run N N N.eqb (new N N 2 10) ex_hist) =
   [OUnit; OUnit; OGet (Some 10%N); OUnit; OGet None; OGet None; OInt 1; OStats 1 2 1 0 2].
+Proof. vm_compute. reflexivity. Qed.
+
+(* non-vacuity of lru_sweep_spares_fresh_entry: three entries expire together; one is looked up (a miss that leaves it
+   absent), stored again, a sweep runs (it removes the two other expired entries), and the re-stored entry is found *)
+Example ex_sweep :
+  snd (run N N N.eqb (new N N 5 10)
+         [(1, Put 1%N 10%N); (1, Put 2%N 20%N); (1, Put 3%N 30%N); (50, Get 3%N); (51, Put 3%N 31%N); (52, Cleanup); (53, Get 3%N); (53, Size)]) =
+  [OUnit; OUnit; OUnit; OGet None; OUnit; OInt 2; OGet (Some 31%N); OInt 1].
 Proof. vm_compute. reflexivity. Qed.
